@@ -168,7 +168,7 @@ static BA rfcQuote(const BA &v)
     return o + "\"";
 }
 // strict directive-list parser (RFC 2831 7.1 / RFC 2616 quoted-string with quoted-pair); false on syntax error
-static bool rfcParse(const BA &in, std::map<BA, BA> &out)
+static bool rfcParse(const BA &in, std::map<BA, BA> &out, std::map<BA, bool> *quoted = nullptr)
 {
     int i = 0;
     while (i < in.size()) {
@@ -190,6 +190,7 @@ static bool rfcParse(const BA &in, std::map<BA, BA> &out)
             while (i < in.size() && in[i] != ',') val += in[i++];
         }
         out[key] = val;
+        if (quoted) (*quoted)[key] = eq + 1 < in.size() && in[eq + 1] == '"';
         if (i < in.size()) { if (in[i] != ',') return false; i++; }
     }
     return true;
@@ -412,10 +413,19 @@ static BA digestChallenge(const DigestCase &k, const BA &qop = "auth")
 static bool endsWithBackslash(const BA &b) { return b.endsWith('\\'); }
 
 // checks the client's digest-response against RFC 2831; returns the expected rspauth
-static bool digestCheckResponse(Client &cl, const DigestCase &k, const BA &resp, const BA &pass, S &why)
+static bool digestCheckResponse(Client &cl, const DigestCase &k, const BA &resp, const BA &pass, S &why, bool checkQuoting)
 {
     std::map<BA, BA> d;
-    if (!rfcParse(resp, d)) { why = "response-syntax"; return false; }
+    std::map<BA, bool> quoted;
+    if (!rfcParse(resp, d, &quoted)) { why = "response-syntax"; return false; }
+    // RFC 2831 2.1.2: username, realm, nonce, cnonce, digest-uri are <"> value <"> — the quotes are not optional
+    if (checkQuoting) {
+        S unq;
+        for (const char *key : { "username", "realm", "nonce", "cnonce", "digest-uri" })
+            if (quoted.count(key) && !quoted[key]) unq += S(unq.empty() ? "" : ",") + key;
+        if (!unq.empty()) oracleFail("C06:digest-md5-unquoted-directive", cl.history + " | unquoted: " + unq + " | response=" + printable(resp));
+        else oraclePass()++;
+    }
     const BA uri = k.cfg.service + "/" + k.cfg.host;
     auto get = [&](const char *key) { auto it = d.find(key); return it == d.end() ? BA() : it->second; };
     if (get("username") != k.cfg.user) { why = "username"; return false; }
@@ -427,7 +437,6 @@ static bool digestCheckResponse(Client &cl, const DigestCase &k, const BA &resp,
     if (get("digest-uri") != uri) { why = "digest-uri"; return false; }
     if (get("charset") != "utf-8") { why = "charset"; return false; }
     if (get("response") != rfcDigest("AUTHENTICATE", k.cfg.user, k.realm, pass, k.nonce, k.cfg.cnonce, "00000001", uri)) { why = "response-value"; return false; }
-    (void)cl;
     return true;
 }
 
@@ -444,12 +453,12 @@ static void digestHonest(const DigestCase &k, const BA &qop)
         return;
     }
     S why;
-    if (!digestCheckResponse(cl, k, *resp, k.cfg.pass, why)) {
+    if (!digestCheckResponse(cl, k, *resp, k.cfg.pass, why, true)) {
         oracleFail(trailing ? "C06:digest-md5-trailing-backslash" : "C06:digest-response-not-rfc2831", cl.history + " | " + why + " | response=" + printable(*resp));
         return;
     }
     oraclePass()++;
-    if (digestCheckResponse(cl, k, *resp, k.cfg.pass + "x", why)) oracleFail("C06:digest-response-accepted-under-other-password", cl.history); else oraclePass()++;
+    if (digestCheckResponse(cl, k, *resp, k.cfg.pass + "x", why, false)) oracleFail("C06:digest-response-accepted-under-other-password", cl.history); else oraclePass()++;
     const BA rspauth = rfcDigest("", k.cfg.user, k.realm, k.cfg.pass, k.nonce, k.cfg.cnonce, "00000001", uri);
     const BA bad1 = rfcDigest("", k.cfg.user, k.realm, k.cfg.pass + "x", k.nonce, k.cfg.cnonce, "00000001", uri);
     BA bad2 = rspauth; bad2[5] = bad2[5] == '0' ? '1' : '0';
@@ -842,7 +851,7 @@ int main(int argc, char **argv)
     }
 
     // ---------------- SCRAM, client level
-    const int nScram = g_thorough ? 160 : 24;
+    const int nScram = g_thorough ? 400 : 60;
     for (int i = 0; i < nScram; i++) {
         for (auto &alg : ALGS) {
             if (!alg.scram) continue;
@@ -863,7 +872,7 @@ int main(int argc, char **argv)
     }
 
     // ---------------- DIGEST-MD5, client level
-    const int nDigest = g_thorough ? 1500 : 150;
+    const int nDigest = g_thorough ? 6000 : 800;
     for (int i = 0; i < nDigest; i++) {
         DigestCase k;
         k.cfg = randCfg(rng, "DIGEST-MD5");
@@ -881,7 +890,7 @@ int main(int argc, char **argv)
     }
 
     // ---------------- PLAIN and HT, client level
-    const int nPlain = g_thorough ? 3000 : 300;
+    const int nPlain = g_thorough ? 10000 : 1500;
     for (int i = 0; i < nPlain; i++) {
         ClientCfg k = randCfg(rng, "PLAIN");
         if (rng.coin()) k.user = randText(rng, 0, 10, "");
@@ -896,7 +905,7 @@ int main(int argc, char **argv)
         expectRefused(c, BA(), "C06:plain-extra-challenge-answered");
         stat("plain_cases");
     }
-    const int nHt = g_thorough ? 2000 : 200;
+    const int nHt = g_thorough ? 3000 : 400;
     for (int i = 0; i < nHt; i++) {
         for (auto &alg : ALGS) {
             if (!alg.ht) continue;
@@ -928,9 +937,9 @@ int main(int argc, char **argv)
     // ---------------- the DIGEST-MD5 message grammar
     {
         BA cur;
-        enumStrings("a=,\"\\ ", g_thorough ? 7 : 5, cur);
-        stat("parse_exhaustive_len", g_thorough ? 7 : 5);
-        const int nRt = g_thorough ? 20000 : 2000;
+        enumStrings("a=,\"\\ ", g_thorough ? 7 : 6, cur);
+        stat("parse_exhaustive_len", g_thorough ? 7 : 6);
+        const int nRt = g_thorough ? 40000 : 6000;
         for (int i = 0; i < nRt; i++) {
             QMap<BA, BA> m;
             int n = 1 + int(rng.below(4));
@@ -939,7 +948,7 @@ int main(int argc, char **argv)
             if (i < 1) sample("roundtrip " + mapStr(m));
             roundTrip(m);
         }
-        const int nMal = g_thorough ? 20000 : 2000;
+        const int nMal = g_thorough ? 60000 : 8000;
         for (int i = 0; i < nMal; i++) {
             static const char al[] = "ab=,\"\\ \tq-\n";
             BA s;
@@ -973,7 +982,7 @@ int main(int argc, char **argv)
         }
         stat("manager_exhaustive_depth", g_thorough ? 4 : 3);
         const std::vector<S> wide = { "C1", "C1", "C1n", "C2", "C2", "C2w", "Ce", "S", "Sv", "Sw", "F", "Fa", "K", "K", "X", "X1", "X2", "X3" };
-        const int nRand = g_thorough ? 6000 : 600;
+        const int nRand = g_thorough ? 25000 : 3000;
         for (int i = 0; i < nRand; i++) {
             static const char *MECHS[] = { "SCRAM-SHA-1", "SCRAM-SHA-256", "SCRAM-SHA-512", "SCRAM-SHA3-512", "DIGEST-MD5", "PLAIN", "HT-SHA-512-NONE", "HT-SHA3-256-NONE" };
             MgrCfg k { rng.coin(), randCfg(rng, MECHS[rng.below(8)]) };
